@@ -1145,15 +1145,29 @@ func (c *Conn) validFrame(opcode MessageType, fin, res1, res2, res3, expectingFr
 //go:norace
 func (c *Conn) readAll(r io.Reader, size int) (*[]byte, error) {
 	const maxAppendSize = 1024 * 1024 * 4
-	if c.MessageLengthLimit > 0 && size > c.MessageLengthLimit {
-		size = c.MessageLengthLimit
+	limit := c.MessageLengthLimit
+	if limit > 0 && size > limit+1 {
+		size = limit + 1
+	}
+	if size <= 0 {
+		size = 1
 	}
 	pbuf := c.Engine.BodyAllocator.Malloc(size)
 	*pbuf = (*pbuf)[0:0]
 	for {
-		n, err := r.Read((*pbuf)[len(*pbuf):cap(*pbuf)])
+		// never read more than one byte beyond the limit, whatever the
+		// capacity of the pooled buffer is.
+		end := cap(*pbuf)
+		if limit > 0 && end > limit+1 {
+			end = limit + 1
+		}
+		n, err := r.Read((*pbuf)[len(*pbuf):end])
 		if n > 0 {
 			*pbuf = (*pbuf)[:len(*pbuf)+n]
+		}
+		if c.isMessageTooLarge(len(*pbuf)) {
+			c.Engine.BodyAllocator.Free(pbuf)
+			return nil, ErrMessageTooLarge
 		}
 		if err != nil {
 			if err == io.EOF {
@@ -1161,19 +1175,11 @@ func (c *Conn) readAll(r io.Reader, size int) (*[]byte, error) {
 			}
 			return pbuf, err
 		}
-		if len(*pbuf) == cap(*pbuf) {
+		if len(*pbuf) == end {
 			l := len(*pbuf)
-			// can not extend more bytes.
-			if c.isMessageTooLarge(l + 1) {
-				return nil, ErrMessageTooLarge
-			}
 			al := l
 			if al > maxAppendSize {
 				al = maxAppendSize
-			}
-			// extend to the limit size at most.
-			if (c.MessageLengthLimit > 0) && (l+al > c.MessageLengthLimit) {
-				al = c.MessageLengthLimit - l
 			}
 			pbuf = c.Engine.BodyAllocator.Append(pbuf, make([]byte, al)...)
 			*pbuf = (*pbuf)[:l]
